@@ -1225,3 +1225,89 @@ Proof.
     rewrite R5. apply (proj1 (Inv (concat ossf))). eapply H; eauto.
   - intros H tr x oss L Hr. destruct (Fw _ _ _ L Hr) as [F1 F2]. apply (proj2 (Inv (concat oss))). rewrite concat_map. eapply H; eauto.
 Qed.
+
+(** * non-vacuity *)
+(* The history: a call (id 1) is served; Callback number 1 (operation 1) is sent under id "1", answered, returns; its
+   watcher is still parked when Stop closes the server; reader and dispatcher exit.  The restarted server then serves
+   a batch holding a call whose id is again 1 and the reply to its new callback: the callback id is renamed (the fresh
+   server sends it under "1", the restarted one under "2", and the replies fed bear "1" and "2"), the id of the
+   call and of its response is not; task, unit and callback indices are shifted by one; the old watcher, released
+   first, is a silent step. *)
+Definition ex_reply (id res : bytes) : jmsg :=
+  {| j_id := id; j_method := []; j_params := []; j_error := None; j_result := res; j_err := None |}.
+Definition ex_tr_hist : list label :=
+  [LStart; LFeed (FMsg (InMsgs false [ex_call [49%N] [7%N]])); LRelRead; LRelNext; LRelBarrier; LRelAcquire 0;
+   LGate [7%N] (ORes [51%N]); LRelHandled 0; LRelDeliver 0; LRelNext;
+   LCallPush 1 true [112%N] [113%N]; LRelPush 1; LFeed (FMsg (InMsgs false [ex_reply [49%N] [55%N]])); LRelRead;
+   LCallStop 2; LRelStop 2; LFeed (FErr SCClosing); LRelRead].
+Definition ex_s0 : state := st_of ex_cfg2 ex_tr_hist.
+Definition ex_tr_fresh : list label :=
+  [LCallPush 3 true [112%N] [114%N]; LRelPush 3;
+   LFeed (FMsg (InMsgs false [ex_call [49%N] [8%N]; ex_reply [49%N] [56%N]])); LRelRead; LRelCbWatch 0;
+   LRelNext; LRelBarrier; LRelAcquire 0; LGate [8%N] (ORes [52%N]); LRelHandled 0; LRelDeliver 0].
+
+Example restart_simulation_cb_nonvacuous :
+  let s := ex_s0 in
+  reach ex_cfg2 s /\ cf_push ex_cfg2 = true /\ wg s = 0 /\ running s = false /\ calls s = [] /\
+  map cb_id (cbs s) = [[49%N]] /\ map cb_watch (cbs s) = [WParked] /\ map cb_op (cbs s) = [1] /\ call_id s = 2 /\
+  length (tasks s) = 1 /\ length (units s) = 1 /\
+  forallb (lab_ok (map cb_op (cbs s))) ex_tr_fresh = true /\
+  forallb (lab_ok' (call_id s - 1) (map cb_op (cbs s))) (LRelCbWatch 0 :: map (rsc_label s 1) ex_tr_fresh) = true /\
+  strip (tasks s) (units s) 1 1 (LRelCbWatch 0 :: map (rsc_label s 1) ex_tr_fresh) = ex_tr_fresh /\
+  map (rsc_label s 1) ex_tr_fresh =
+    [LCallPush 3 true [112%N] [114%N]; LRelPush 3;
+     LFeed (FMsg (InMsgs false [ex_call [49%N] [8%N]; ex_reply [50%N] [56%N]])); LRelRead; LRelCbWatch 1;
+     LRelNext; LRelBarrier; LRelAcquire 1; LGate [8%N] (ORes [52%N]); LRelHandled 1; LRelDeliver 1] /\
+  exists x oss, run (fresh_of ex_cfg2 s) ex_tr_fresh = Some (x, oss) /\
+    run (started s) (map (rsc_label s 1) ex_tr_fresh) = Some (rsc_emb s (cbs s) x, map (map (ren_obs 1)) oss) /\
+    run (started s) (LRelCbWatch 0 :: map (rsc_label s 1) ex_tr_fresh) =
+      Some (rsc_emb s (mark_done 0 (cbs s)) x, weave 1 1 (LRelCbWatch 0 :: map (rsc_label s 1) ex_tr_fresh) oss) /\
+    concat oss = [OSendReq true [49%N] [112%N] [114%N]; ORet 3 (ACbRes [56%N]); OStart [8%N] false; OGate [8%N] false;
+                  OSend true false [{| r_id := [49%N]; r_body := BRes [52%N] |}]] /\
+    concat (map (map (ren_obs 1)) oss) =
+                 [OSendReq true [50%N] [112%N] [114%N]; ORet 3 (ACbRes [56%N]); OStart [8%N] false; OGate [8%N] false;
+                  OSend true false [{| r_id := [49%N]; r_body := BRes [52%N] |}]].
+Proof.
+  cbv zeta. split; [apply reach_st_of; vm_compute; discriminate|].
+  repeat (split; [vm_compute; reflexivity|]).
+  eexists _, _. split; [vm_compute; reflexivity|]. repeat (split; [vm_compute; reflexivity|]). vm_compute. reflexivity.
+Qed.
+
+(* a reply bearing the id "1" of the old callback, fed to the restarted server: a late reply (C09.5); the reader's
+   window produces nothing and nothing but the reader's own position changes *)
+Example restart_old_reply_unsolicited_nonvacuous :
+  let s := ex_s0 in
+  let m := ex_reply [49%N] [57%N] in
+  forallb (fun c0 => old_id (call_id s - 1) (cb_id c0)) (cbs s) = true /\ c_push (fresh_of ex_cfg2 s) = true /\ is_req_or_notif m = false /\ j_method m = [] /\
+  has_reply_fields m = true /\ old_id (call_id s - 1) (fix_id (j_id m)) = true /\
+  no_old_feed (call_id s - 1) (FMsg (InMsgs false [m])) = false /\
+  exists s', run (started s) [LFeed (FMsg (InMsgs false [m])); LRelRead] = Some (s', [[]; []]) /\
+    s' = started s <| rd := RIdle |>.
+Proof.
+  cbv zeta. repeat (split; [vm_compute; reflexivity|]). eexists. split; vm_compute; reflexivity.
+Qed.
+
+(* hypothesis (iii) is needed: when the caller's context of the new Callback number 1 ends before it registers, the
+   fresh server cancels it (its watcher reports the cancellation); in the restarted server LCbCtxEnd 1 hits the OLD
+   record of operation 1 instead, and the watcher of the new callback stays blocked *)
+Example restart_ops_reuse_refuted :
+  let s := ex_s0 in
+  let tr := [LCbCtxEnd 1 WCancel; LCallPush 1 true [112%N] [114%N]; LRelPush 1; LRelCbWatch 0] in
+  forallb (lab_ok (map cb_op (cbs s))) tr = false /\
+  (exists x, run (fresh_of ex_cfg2 s) tr =
+             Some (x, [[]; []; [OSendReq true [49%N] [112%N] [114%N]]; [ORet 1 (ACbCtx WCancel)]])) /\
+  run (started s) (map (rsc_label s 1) tr) = None.
+Proof. cbv zeta. split; [vm_compute; reflexivity|]. split; [eexists|]; vm_compute; reflexivity. Qed.
+
+(* hypothesis (ii) is needed: a member with an id but neither method, result nor error is answered under its own id,
+   so renaming its id changes the observations *)
+Example restart_unshaped_refuted :
+  let s := ex_s0 in
+  let m := {| j_id := [49%N]; j_method := []; j_params := []; j_error := None; j_result := []; j_err := None |} in
+  let tr := [LFeed (FMsg (InMsgs false [m])); LRelRead; LRelNext; LRelBarrier; LRelDeliver 0] in
+  forallb (lab_ok (map cb_op (cbs s))) tr = false /\
+  (exists x, run (fresh_of ex_cfg2 s) tr =
+     Some (x, [[]; []; []; []; [OSend true false [{| r_id := [49%N]; r_body := BErr InvalidRequest s_empty_method |}]]])) /\
+  (exists x, run (started s) (map (rsc_label s 1) tr) =
+     Some (x, [[]; []; []; []; [OSend true false [{| r_id := [50%N]; r_body := BErr InvalidRequest s_empty_method |}]]])).
+Proof. cbv zeta. split; [vm_compute; reflexivity|]. split; eexists; vm_compute; reflexivity. Qed.
